@@ -169,18 +169,45 @@ def b(j, hi, lo):
     return X('u%d' % j, hi, lo)
 
 
-UTF8_DEC = {
-    'ascii': unit(b(0, 6, 0)),
-    '2-byte lead + cont': unit(b(0, 4, 0), b(1, 5, 0)),
-    '3-byte lead + cont,cont': unit(b(0, 3, 0), b(1, 5, 0), b(2, 5, 0)),
-    '4-byte lead + cont,cont,cont': unit(b(0, 2, 0), b(1, 5, 0), b(2, 5, 0), b(3, 5, 0)),
-}
+D2 = unit(b(0, 4, 0), b(1, 5, 0))
+D3 = unit(b(0, 3, 0), b(1, 5, 0), b(2, 5, 0))
+D4 = unit(b(0, 2, 0), b(1, 5, 0), b(2, 5, 0), b(3, 5, 0))
+CONT = (0x80, 0xBF)
+# Unicode Table 3-7: the well-formed (shortest-form, scalar-value) byte sequences; C01 is about these only
+UTF8_WELLFORMED = [
+    ('00..7F', [(0x00, 0x7F)], unit(b(0, 6, 0))),
+    ('C2..DF 80..BF', [(0xC2, 0xDF), CONT], D2),
+    ('E0 A0..BF 80..BF', [(0xE0, 0xE0), (0xA0, 0xBF), CONT], D3),
+    ('E1..EC 80..BF 80..BF', [(0xE1, 0xEC), CONT, CONT], D3),
+    ('ED 80..9F 80..BF', [(0xED, 0xED), (0x80, 0x9F), CONT], D3),
+    ('EE..EF 80..BF 80..BF', [(0xEE, 0xEF), CONT, CONT], D3),
+    ('F0 90..BF 80..BF 80..BF', [(0xF0, 0xF0), (0x90, 0xBF), CONT, CONT], D4),
+    ('F1..F3 80..BF 80..BF 80..BF', [(0xF1, 0xF3), CONT, CONT, CONT], D4),
+    ('F4 80..8F 80..BF 80..BF', [(0xF4, 0xF4), (0x80, 0x8F), CONT, CONT], D4),
+]
+UTF8_DEC = dict((nm, vec) for nm, units, vec in UTF8_WELLFORMED)
+
+
+def utf8_wellformed_classes():
+    return [dict(name=nm, units=units, k=None, need=len(units), expect='accept') for nm, units, vec in UTF8_WELLFORMED]
 UTF16_DEC = {      # (vector, constant subtracted from the decoded value first)
     'non-surrogate (low range)': (unit(b(0, 15, 0)), 0),
     'non-surrogate (high range)': (unit(b(0, 15, 0)), 0),
     'high,low pair': (unit(b(0, 9, 0), b(1, 9, 0)), 0x10000),
-    'low,high pair (tolerated)': (unit(b(1, 9, 0), b(0, 9, 0)), 0x10000),
 }
+
+
+def known_bits(vec, rngs):
+    """Replace symbolic bits that are constant over the unit's range by that constant."""
+    out = []
+    for bt in vec:
+        if isinstance(bt, tuple) and bt[0] == 'x' and bt[1] in rngs:
+            lo, hi = rngs[bt[1]]
+            if lo >= 0 and (lo >> bt[2]) == (hi >> bt[2]):
+                out.append((lo >> bt[2]) & 1)
+                continue
+        out.append(bt)
+    return out
 
 
 def decoder(run, m, F, E, probe_prefix, classes, table, eb_src, label):
@@ -212,7 +239,9 @@ def decoder(run, m, F, E, probe_prefix, classes, table, eb_src, label):
             names = dict((conv.unit_atom(eb_src, j), 'u%d' % j) for j in range(4))
             be = B.BitEval(s2, names)
             l = I.as_u(s2, v) - sub
-            got = be.lin_bits(l, 32)
+            rngs = dict(('u%d' % j, s2.arange(conv.unit_atom(eb_src, j))) for j in range(4) if conv.unit_atom(eb_src, j) in s2.rng)
+            got = known_bits(be.lin_bits(l, 32), rngs)
+            want = known_bits(want, rngs)
             if got != pad(want, 32):
                 problems.append('decoded value%s is [%s], the standard says [%s]' % (' - 0x%X' % sub if sub else '', B.fmt(got[:22]), B.fmt(pad(want, 22))))
         run.ob('R01.1', label, not problems, '; '.join(problems) if problems else 'decoded scalar matches the table bit for bit',
@@ -419,7 +448,7 @@ def check(run):
     n = 0
     n += encoder(run, m, F, E, '_ST_PRIVATE::write_utf8(', UTF8_ENC, 1, 'write_utf8')
     n += encoder(run, m, F, E, '_ST_PRIVATE::write_utf16(', UTF16_ENC, 2, 'write_utf16')
-    n += decoder(run, m, F, E, '_ST_PRIVATE::utf32_convert_from_utf8(', c02.utf8_classes(), UTF8_DEC, 1, 'extract_utf8')
+    n += decoder(run, m, F, E, '_ST_PRIVATE::utf32_convert_from_utf8(', utf8_wellformed_classes(), UTF8_DEC, 1, 'extract_utf8')
     n += decoder(run, m, F, E, '_ST_PRIVATE::utf32_convert_from_utf16(', c02.utf16_classes(), UTF16_DEC, 2, 'extract_utf16')
     n += latin1(run, m, F, E)
     run.floor('codec value classes', n, 18)
